@@ -511,7 +511,8 @@ namespace Pistache::Http
             // the chunk size comes from the peer: reserve for what has arrived only
             message->body_.reserve(message->body_.size() + std::min(available, size - alreadyAppendedChunkBytes));
 
-            if (available + alreadyAppendedChunkBytes < size + 2)
+            // (written so that a huge announced size cannot overflow)
+            if (available < 2 || available - 2 < size - alreadyAppendedChunkBytes)
             {
                 // Take the chunk data that is there, but leave a lone CR of the
                 // terminating CRLF in the buffer until the LF has arrived too
